@@ -596,7 +596,7 @@ func coqCase(s Spec, clock [3]int, raw accessrig.RawReq, o accessrig.Obs, target
 
 func writeShard(dir, name, preamble, typ, modelF, propF string, cases []string) error {
 	var sb strings.Builder
-	sb.WriteString("From G04 Require Import AccessCheck.\nOpen Scope N_scope.\n")
+	sb.WriteString("From G04 Require Import AccessCheck TimeFrame.\nOpen Scope N_scope.\n")
 	sb.WriteString(preamble)
 	fmt.Fprintf(&sb, "Definition cases : list %s :=\n  %s.\n", typ, coqfmt.List(typ, cases))
 	fmt.Fprintf(&sb, "Definition M := Eval vm_compute in (bad %s cases).\n", modelF)
@@ -786,6 +786,49 @@ func hostnameCases(r *rng.R, n int, aliases []string) ([]string, []any) {
 	return out, js
 }
 
+// parseFrameCases: ruleset.ParseTimeFrameEntry (the --allow-time-frame syntax) on generated strings.
+func parseFrameCases(r *rng.R, n int) ([]string, []any, int) {
+	var out []string
+	var js []any
+	accepted := 0
+	emit := func(in string) {
+		e, err := ruleset.ParseTimeFrameEntry(in)
+		res := "None"
+		if err == nil {
+			accepted++
+			res = fmt.Sprintf("(Some {| tf_day := %d; tf_start := %d; tf_end := %d |})", int(e.Weekday), e.HourStart, e.HourEnd)
+		}
+		out = append(out, fmt.Sprintf("{| pf_in := %s; pf_out := %s |}", coqfmt.Str(in), res))
+		js = append(js, map[string]any{"kind": "time-frame-syntax", "in": in})
+	}
+	days := []string{"mon", "monday", "Mon", "MONDAY", "tue", "Tuesday", "wed", "wednesday", "thu", "thursday", "fri", "friday", "sat", "saturday",
+		"sun", "sunday", " sun ", "\tsat", "su", "mond", "mo", "", "0", "1", "montag", "mon ", "sunday\n", "m\u00f6n"}
+	hours := []string{"0", "1", "9", "09", "009", "12", "17", "23", "24", "25", "-1", "-0", "+9", "+24", "+", "-", "", " 9", "9 ", "9.0", "0x9", "1_0",
+		"99999999999999999999", "-99999999999999999999", "24 ", "\t5", "5\n", "e", "1e1"}
+	seps := []string{"/", "/", "/", " /", "/ ", "//", "", "\\", "/ /"}
+	dash := []string{"-", "-", "-", " - ", "--", "", "\u2013", "-+"}
+	for _, d := range days {
+		for _, hs := range []string{"0-24", "9-17", "0-0", "24-24", "17-9", "9-25", "-1-5", " 9-17", "9-17 ", "9-", "-17", "9", "9-17-18", "+9-+17", "12-12"} {
+			emit(d + "/" + hs)
+		}
+	}
+	for _, a := range hours {
+		for _, c := range hours {
+			emit("mon/" + a + "-" + c)
+		}
+	}
+	for i := 0; i < n; i++ {
+		emit(r.Pick(days) + r.Pick(seps) + r.Pick(hours) + r.Pick(dash) + r.Pick(hours))
+	}
+	emit("")
+	emit("/")
+	emit("mon/")
+	emit("mon/ ")
+	emit("/9-17")
+	emit("mon/9-17/x")
+	return out, js, accepted
+}
+
 func timeCases() ([]string, []any) {
 	var out []string
 	var js []any
@@ -811,31 +854,33 @@ func timeCases() ([]string, []any) {
 // ---------------------------------------------------------------- main
 
 type Meta struct {
-	Shards        []string       `json:"shards"`
-	ShardSize     int            `json:"shard_size"`
-	ShardKinds    map[string]int `json:"shard_case_counts"`
-	ShardSizes    map[string]int `json:"shard_sizes"` // kinds whose shards are smaller than shard_size (long literals)
-	Configs       int            `json:"configs"`
-	Exchanges     int            `json:"exchanges"`
-	Sessions      int            `json:"sessions"`
-	ByStatus      map[string]int `json:"exchanges_by_status"`
-	ByMethod      map[string]int `json:"exchanges_by_method"`
-	ByCred        map[string]int `json:"exchanges_by_credential_variant"`
-	ByHost        map[string]int `json:"exchanges_by_host_variant"`
-	ByPos         map[string]int `json:"exchanges_by_position_on_connection"`
-	InsideMITM    map[string]int `json:"exchanges_inside_mitm_by_status_and_refusing_check"`
-	Refused       int            `json:"refused"`
-	Forwarded     int            `json:"forwarded"`
-	Skipped       int            `json:"skipped_unparsable"`
-	MatcherChecks int            `json:"deny_matcher_hostnames_checked"`
-	MatcherDiffs  int            `json:"deny_matcher_hostname_differences"`
-	Aliases       []string       `json:"hosts_file_aliases"`
-	Basic         int            `json:"basic_cases"`
-	IP            int            `json:"ip_cases"`
-	Hostname      int            `json:"hostname_cases"`
-	Time          int            `json:"time_cases"`
-	Samples       []Case         `json:"samples"`
-	Errors        []string       `json:"errors"`
+	Shards              []string       `json:"shards"`
+	ShardSize           int            `json:"shard_size"`
+	ShardKinds          map[string]int `json:"shard_case_counts"`
+	ShardSizes          map[string]int `json:"shard_sizes"` // kinds whose shards are smaller than shard_size (long literals)
+	Configs             int            `json:"configs"`
+	Exchanges           int            `json:"exchanges"`
+	Sessions            int            `json:"sessions"`
+	ByStatus            map[string]int `json:"exchanges_by_status"`
+	ByMethod            map[string]int `json:"exchanges_by_method"`
+	ByCred              map[string]int `json:"exchanges_by_credential_variant"`
+	ByHost              map[string]int `json:"exchanges_by_host_variant"`
+	ByPos               map[string]int `json:"exchanges_by_position_on_connection"`
+	InsideMITM          map[string]int `json:"exchanges_inside_mitm_by_status_and_refusing_check"`
+	Refused             int            `json:"refused"`
+	Forwarded           int            `json:"forwarded"`
+	Skipped             int            `json:"skipped_unparsable"`
+	MatcherChecks       int            `json:"deny_matcher_hostnames_checked"`
+	MatcherDiffs        int            `json:"deny_matcher_hostname_differences"`
+	Aliases             []string       `json:"hosts_file_aliases"`
+	Basic               int            `json:"basic_cases"`
+	IP                  int            `json:"ip_cases"`
+	Hostname            int            `json:"hostname_cases"`
+	Time                int            `json:"time_cases"`
+	FrameSyntax         int            `json:"time_frame_syntax_cases"`
+	FrameSyntaxAccepted int            `json:"time_frame_syntax_cases_accepted"`
+	Samples             []Case         `json:"samples"`
+	Errors              []string       `json:"errors"`
 }
 
 func allSpecs(tier string) []Spec {
@@ -1539,6 +1584,9 @@ func main() {
 		hc, hj := hostnameCases(r, nh, aliases)
 		emit("hcases", "", "hcase", "hcase_model_ok", "always_ok", hc, hj)
 		m.Hostname = len(hc)
+		pfc, pfj, pfAcc := parseFrameCases(r, nh)
+		emit("pfcases", "", "pfcase", "pfcase_model_ok", "pfcase_prop_ok", pfc, pfj)
+		m.FrameSyntax, m.FrameSyntaxAccepted = len(pfc), pfAcc
 		tc, tj := timeCases()
 		emit("tcases", "", "tcase", "tcase_model_ok", "tcase_prop_ok", tc, tj)
 		m.Time = len(tc)
